@@ -188,6 +188,8 @@ class Fn:
         self.locals = {k: parse_ty(v) for k, v in spec.get('locals', {}).items()}
         self.ret = parse_ty(spec['ret'])
         self.pure = bool(spec.get('pure'))
+        self.retype = set(spec.get('retype', []))            # locals that may change type (never inside a loop)
+        self.format_locals = set(spec.get('format_locals', []))   # locals holding a constant format string
 
     def bad(self, node, msg):
         raise Unsupported(node, msg)
@@ -349,6 +351,8 @@ class Fn:
             return t
         if ty[0] == 'strlit':
             return codes(ty[1])
+        if ty[0] == 'emptylist':
+            return codes('[]')
         if ty == NAT:
             return 'print_nat %s' % t
         if ty == INT:
@@ -356,8 +360,12 @@ class Fn:
         self.bad(node, 'formatting a value of type %s' % ty[0])
 
     def binop(self, e, env):
+        fmt = None
         if isinstance(e.op, ast.Mod) and isinstance(e.left, ast.Constant) and isinstance(e.left.value, str):
             fmt = e.left.value
+        elif isinstance(e.op, ast.Mod) and isinstance(e.left, ast.Name) and env.get(e.left.id, ('',))[0] == 'strlit':
+            fmt = env[e.left.id][1]
+        if fmt is not None:
             args = list(e.right.elts) if isinstance(e.right, ast.Tuple) else [e.right]
             pieces = re.split(r'(%.)', fmt)
             binds, parts = [], []
@@ -397,6 +405,10 @@ class Fn:
                 br, tr, tyr = [], None, ('charset', [ord(x.value) for x in right.elts])
             else:
                 br, tr, tyr = self.expr(right, env)
+            if tyl == STR and isinstance(right, ast.List) and right.elts and all(
+                    isinstance(x, ast.Constant) and isinstance(x.value, str) for x in right.elts):
+                t = 'str_in %s [%s]' % (tl, '; '.join(codes(x.value) for x in right.elts))
+                return bl, ('negb (%s)' if neg else '(%s)') % t, BOOL
             if tyr[0] == 'charset' and tyl == CHAR:
                 t = 'char_in %s [%s]' % (tl, '; '.join(map(str, tyr[1])))
             elif tyr == LOOKUP and tyl == STR:
@@ -419,6 +431,11 @@ class Fn:
                 self.bad(e, 'comparison of %s and %s' % (tyl[0], tyr[0]))
             return bl + br, ('negb (%s)' if neg else '(%s)') % t, BOOL
         ops = {ast.Lt: '<?', ast.LtE: '<=?', ast.Gt: '>?', ast.GtE: '>=?'}
+        if type(op) in ops and {tyl, tyr} == {INT, NAT}:        # a nat meeting an int is injected (python ints are unbounded)
+            if tyl == NAT:
+                tl, tyl = '(Z.of_nat %s)' % tl, INT
+            else:
+                tr, tyr = '(Z.of_nat %s)' % tr, INT
         if type(op) in ops and tyl == INT and tyr == INT:
             return bl + br, '(%s %s %s)' % (tl, ops[type(op)], tr), BOOL
         self.bad(e, 'comparison %s on %s and %s' % (type(op).__name__, tyl[0], tyr[0]))
@@ -467,6 +484,24 @@ class Fn:
                 if ty[0] != 'list':
                     self.bad(e, 'list() of a %s' % ty[0])
                 return b, t, ty
+            if f.id in ('min', 'max') and len(e.args) == 1:
+                b, t, ty = self.expr(e.args[0], env)
+                if ty not in (('list', NAT), NATSET):
+                    self.bad(e, '%s of a %s' % (f.id, ' '.join(map(str, ty))))
+                v = self.fresh()
+                return b + [(v, 'list_%s %s' % (f.id, t))], v, NAT
+            if f.id == 'set' and len(e.args) == 1:
+                b, t, ty = self.expr(e.args[0], env)
+                if ty not in (('list', NAT), NATSET):
+                    self.bad(e, 'set() of a %s' % ' '.join(map(str, ty)))
+                return b, t, NATSET          # a set of indices is given by any list of its elements
+            if f.id == 'map' and len(e.args) == 2 and isinstance(e.args[0], ast.Name) and e.args[0].id == 'int' \
+                    and 'int' not in env and 'int' not in self.mod.funcs:
+                b, t, ty = self.expr(e.args[1], env)
+                if ty != ('list', STR):
+                    self.bad(e, 'map(int, ..) over a %s' % ' '.join(map(str, ty)))
+                v = self.fresh()
+                return b + [(v, 'str_ints %s' % t)], v, ('list', INT)
             if f.id == 'map' and len(e.args) == 2 and isinstance(e.args[0], ast.Name):
                 spec = self.mod.emitted.get(e.args[0].id)
                 if spec is None or not spec.get('pure') or len(spec['params']) != 1:
@@ -503,6 +538,10 @@ class Fn:
             if m == 'strip' and tyo == STR and len(e.args) == 1 and isinstance(e.args[0], ast.Constant) \
                     and isinstance(e.args[0].value, str):
                 return bo, '(str_strip %s %s)' % (codes(e.args[0].value), to), STR
+            if m == 'replace' and tyo == STR and len(e.args) == 2 and all(
+                    isinstance(a, ast.Constant) and isinstance(a.value, str) for a in e.args) \
+                    and len(e.args[0].value) == 1 and e.args[1].value == '':
+                return bo, '(str_remove %d %s)' % (ord(e.args[0].value), to), STR
             if m == 'split' and tyo == STR and len(e.args) == 1 and isinstance(e.args[0], ast.Constant) \
                     and isinstance(e.args[0].value, str) and len(e.args[0].value) in (1, 2):
                 sep = e.args[0].value
@@ -589,9 +628,11 @@ class Fn:
         self.bad(s, 'statement %s is outside the supported subset' % type(s).__name__)
 
     def bindvar(self, node, env, name, ty):
-        if name in env and env[name] != ty:
+        if ty[0] in ('strlit', 'emptylist') and name not in self.retype and name not in self.format_locals:
+            self.bad(node, 'local %s would hold an untyped constant' % name)
+        if name in env and env[name] != ty and name not in self.retype and name not in self.format_locals:
             self.bad(node, 'local %s changes type from %s to %s' % (name, env[name][0], ty[0]))
-        if name in self.locals and self.locals[name] != ty:
+        if name in self.locals and self.locals[name] != ty and name not in self.retype:
             self.bad(node, 'local %s is declared %s in the signature file but holds a %s' % (name, self.locals[name][0], ty[0]))
         if name in self.mod.consts or name in self.mod.funcs:
             self.bad(node, 'local %s shadows a module-level name' % name)
@@ -604,6 +645,11 @@ class Fn:
             self.bad(s, 'chained assignment')
         tg = s.targets[0]
         b, t, ty = self.expr(s.value, env)
+        if isinstance(tg, ast.Name) and not b and (
+                (ty[0] == 'strlit' and tg.id in self.format_locals) or (ty[0] == 'emptylist' and tg.id in self.retype)):
+            # a constant the translator keeps track of itself (a format string applied later with %, a
+            # placeholder [] that is replaced or printed): no let, the uses see the constant
+            return nxt(self.bindvar(s, env, tg.id, ty))
         if isinstance(tg, ast.Name):
             t, ty = self.settle(s, t, ty, self.locals.get(tg.id) or env.get(tg.id))
             env2 = self.bindvar(s, env, tg.id, ty)
